@@ -25,15 +25,33 @@ func locksetForType(r *repoCtx, pkgPrefix, typeName, mutex string, guarded map[s
 	sort.Slice(others, func(i, j int) bool { return others[i].Name() < others[j].Name() })
 	methods = len(fis)
 	helpers = map[string]bool{}
-	for iter := 0; iter < 4; iter++ {
+	summaries := map[string]string{}
+	for iter := 0; iter < 6; iter++ {
 		acc = nil
 		problems = nil
 		callsHeld := map[string][]bool{}
 		takesLock := map[string]bool{}
+		newSummary := false
+		var unbalanced []string
 		for _, fi := range fis {
 			short := strings.TrimPrefix(fi.Name(), typeName+".")
-			w := walkLockset(fi, mutex, guarded, helpers[short])
+			w := walkLockset(fi, typeName, mutex, guarded, helpers[short], summaries)
 			acc = append(acc, w.accesses...)
+			switch sum := exitSummary(w, helpers[short]); sum {
+			case "preserve":
+				if summaries[short] != "" {
+					delete(summaries, short)
+					newSummary = true
+				}
+			case "condNil":
+				if summaries[short] != sum {
+					summaries[short] = sum
+					newSummary = true
+				}
+			default:
+				// while helper status is still being inferred a method may look unbalanced; only the final iteration reports
+				unbalanced = append(unbalanced, fi.Name()+": exits with a lock state different from its entry state (entry held="+fmt.Sprint(helpers[short])+")")
+			}
 			for _, p := range w.problems {
 				problems = append(problems, fi.Name()+": "+p)
 			}
@@ -52,15 +70,13 @@ func locksetForType(r *repoCtx, pkgPrefix, typeName, mutex string, guarded map[s
 		}
 		// functions outside the type that hold a variable of the type
 		for _, fi := range others {
-			for _, v := range varsOfType(fi, typeName) {
-				w := walkLocksetVar(fi, v, mutex, guarded)
-				acc = append(acc, w.accesses...)
-				for _, p := range w.problems {
-					problems = append(problems, fi.Name()+"("+v+"): "+p)
-				}
-				for _, c := range w.calls {
-					callsHeld[c.Method] = append(callsHeld[c.Method], c.Held)
-				}
+			w := walkLockset(fi, typeName, mutex, guarded, false, summaries)
+			acc = append(acc, w.accesses...)
+			for _, p := range w.problems {
+				problems = append(problems, fi.Name()+": "+p)
+			}
+			for _, c := range w.calls {
+				callsHeld[c.Method] = append(callsHeld[c.Method], c.Held)
 			}
 		}
 		changed := false
@@ -84,7 +100,8 @@ func locksetForType(r *repoCtx, pkgPrefix, typeName, mutex string, guarded map[s
 				changed = true
 			}
 		}
-		if !changed {
+		if !changed && !newSummary {
+			problems = append(problems, unbalanced...)
 			break
 		}
 	}
